@@ -1605,8 +1605,10 @@ def gen_parse_input(m, rng, job):
             parts.append(''.join(rng.choice('ab m[1;') for _ in range(rng.randint(1, 3))))
         elif x < 0.9:
             parts.append('\x1b[' + random_sgr(rng) + 'm')
-        elif x < 0.96:
+        elif x < 0.95:
             parts.append(rng.choice(SEQ_NONSGR))
+        elif x < 0.975:
+            parts.append(rng.choice(['\x1b[1', '\x1b[', '\x1b[31;', '\x1b']))     # aborted by whatever comes next
         else:
             parts.append(rng.choice(SEQ_OUT_OF_CLAIM))
     if rng.random() < 0.1:
